@@ -1158,7 +1158,7 @@ M.contract(_Q_RES + '_transform_method_for', params=dict(merged_ranges=MERGED), 
                'segments-in-normal-form': lambda result: lt_ok(result),
            }, raises_only=())
 
-M.contract(_Q_RES + 'resolve', params=dict(self=RESOLVER), ghosts=dict(n=Int),
+M.contract(_Q_RES + 'resolve', params=dict(self=RESOLVER), ghosts=dict(n=Int), modifies=_R_MODIFIES,
            requires=lambda self: wf_part(self._partial_partitioning),
            old=lambda self: snapshot(self._partial_partitioning),
            ensures={
@@ -1366,3 +1366,19 @@ def _bounded_end_to_end(ctx):
                        'texts of 0..%d lines; one range, and pairs of ranges, of the four forms with integers in '
                        '[-%d, %d]' % (max_lines, bound, bound), cases, False, failures,
                        note='against S(range, N) as defined in the manual')
+
+# ------------------------------------------------------------------------------ the two trivial lines transformers, the empty contents
+from contracts.common import items_of  # noqa: E402
+
+M.contract(P_SRC + ':_EmptyLinesTransformer.transform',
+           params=dict(self=Inst(T._EmptyLinesTransformer), lines=LINES),
+           ensures={'no-lines': lambda result: len(items_of(result)) == 0}, raises_only=())
+
+M.contract(P_SRC + ':_EverythingLinesTransformer.transform',
+           params=dict(self=Inst(T._EverythingLinesTransformer), lines=LINES),
+           ensures={'the-lines-of-the-text': lambda lines, result: result is lines and lines.pos == 0}, raises_only=())
+
+M.contract(P_SRC + ':_EmptyContents.as_lines',
+           params=dict(self=Inst(T._EmptyContents, _transformed=Any_, _as_file_path=Any_)), yields=ListOf(Any_),
+           ensures={'one-iterator-without-lines': lambda yielded: len(yielded) == 1 and len(items_of(yielded[0])) == 0},
+           raises_only=())
